@@ -18,20 +18,36 @@ struct Case {
     // "desired moves": when non-empty every node is locked (cola::Lock through a PreIteration) to centre+(dx,dy);
     // nodes with (0,0) stay where they are, the others are dragged past their neighbours along lattice lines
     std::vector<std::pair<double, double>> locks;
+    // resizes requested before the first iteration (cola::Resize through the PreIteration): node id, new box
+    struct Rz { int id; double x, y, w, h; };
+    std::vector<Rz> resizes;
     std::string str() const {
         Writer w; w.tok("topo").i(nodes.size()).i(edges.size()).d(ideal).i(maxIter).i(nonOverlap).nl();
         for (auto &n : nodes) w.d(n.x).d(n.y).d(n.w).d(n.h).nl();
         for (auto &e : edges) w.i(e.first).i(e.second).nl();
         if (!locks.empty()) { w.tok("locks").nl(); for (auto &l : locks) w.d(l.first).d(l.second).nl(); }
+        if (!resizes.empty()) { w.tok("resizes").i(resizes.size()).nl(); for (auto &z : resizes) w.i(z.id).d(z.x).d(z.y).d(z.w).d(z.h).nl(); }
         return w.str();
     }
     static Case parse(Reader &r) {
         Case c; r.expect("topo"); size_t n = r.i(), m = r.i(); c.ideal = r.d(); c.maxIter = r.i(); c.nonOverlap = r.i();
         for (size_t i = 0; i < n; i++) { R4 q; q.x = r.d(); q.y = r.d(); q.w = r.d(); q.h = r.d(); c.nodes.push_back(q); }
         for (size_t i = 0; i < m; i++) { int a = r.i(), b = r.i(); c.edges.push_back({a, b}); }
-        if (!r.eof()) { r.expect("locks"); for (size_t i = 0; i < n; i++) { double a = r.d(), b = r.d(); c.locks.push_back({a, b}); } }
+        while (!r.eof()) {
+            std::string t = r.tok();
+            if (t == "locks") for (size_t i = 0; i < n; i++) { double a = r.d(), b = r.d(); c.locks.push_back({a, b}); }
+            else if (t == "resizes") { size_t k = r.i(); for (size_t i = 0; i < k; i++) { Rz z; z.id = r.i(); z.x = r.d(); z.y = r.d(); z.w = r.d(); z.h = r.d(); c.resizes.push_back(z); } }
+            else throw std::runtime_error("case file: unexpected '" + t + "'");
+        }
         return c;
     }
+};
+
+// resizes are applied once, before the first iteration
+struct OncePre : cola::PreIteration {
+    int calls = 0;
+    OncePre(cola::Locks &l, cola::Resizes &r) : cola::PreIteration(l, r) {}
+    bool operator()() override { if (calls++ == 1) resizes.clear(); return true; }
 };
 
 bool segThroughRect(double x0, double y0, double x1, double y1, const vpsc::Rectangle *r, double shrink) {
@@ -86,8 +102,10 @@ Verdict eval_c13(const Case &c) {
         cola::TestConvergence done(1e-4, c.maxIter);
         cola::Locks locks;
         for (size_t i = 0; i < c.locks.size() && i < n; i++) locks.push_back(cola::Lock(i, x0[i] + c.locks[i].first, y0[i] + c.locks[i].second));
-        cola::PreIteration pre(locks);
-        cola::ConstrainedFDLayout alg(rs, es, c.ideal, cola::StandardEdgeLengths, &done, c.locks.empty() ? nullptr : &pre);
+        cola::Resizes resizes;
+        for (auto &z : c.resizes) if (z.id >= 0 && (size_t)z.id < n) resizes.push_back(cola::Resize(z.id, z.x, z.y, z.w, z.h));
+        OncePre pre(locks, resizes);
+        cola::ConstrainedFDLayout alg(rs, es, c.ideal, cola::StandardEdgeLengths, &done, (c.locks.empty() && c.resizes.empty()) ? nullptr : &pre);
         topology::ColaTopologyAddon topo(tn, routes);
         alg.setTopology(&topo);
         alg.setAvoidNodeOverlaps(c.nonOverlap);
@@ -97,6 +115,7 @@ Verdict eval_c13(const Case &c) {
         if (res) { tn = res->topologyNodes; routes = res->topologyRoutes; }
     }
     bool moved = false;
+    if (!c.resizes.empty()) { moved = true; v.cls("resized"); }
     for (size_t i = 0; i < n; i++) if (std::fabs(rs[i]->getCentreX() - x0[i]) > c.nodes[i].w || std::fabs(rs[i]->getCentreY() - y0[i]) > c.nodes[i].h) moved = true;
     bool finalBends = false;
     for (auto *rt : routes) if (rt->nSegments > 1) finalBends = true;
@@ -192,6 +211,31 @@ Case gen_locked() {
     return c;
 }
 
+// Lattice scene in which one or two nodes (preferably ones an edge bends round) are resized before the first iteration.
+Case gen_resize() {
+    Case c = gen_case();
+    size_t n = c.nodes.size();
+    if (n < 2) return c;
+    for (auto &q : c.nodes) { q.x = std::floor(q.x / 10) * 10; q.y = std::floor(q.y / 10) * 10; }
+    for (size_t i = 0; i < n; i++) for (size_t j = i + 1; j < n; j++) {
+        auto &a = c.nodes[i], &b = c.nodes[j];
+        if (a.x < b.x + b.w && b.x < a.x + a.w && a.y < b.y + b.h && b.y < a.y + a.h) { c.nodes.resize(0); return c; }
+    }
+    int k = irange(1, 2);
+    std::set<int> used;
+    for (int j = 0; j < k; j++) {
+        int id = irange(0, (int)n - 1);
+        if (!used.insert(id).second) continue;
+        auto &q = c.nodes[id];
+        double l = irange(-1, 3) * 5, r = irange(-1, 3) * 5, t = irange(-1, 3) * 5, b = irange(-1, 3) * 5;
+        double w = q.w + l + r, h = q.h + t + b;
+        if (w < 10 || h < 10) continue;
+        c.resizes.push_back({id, q.x - l, q.y - t, w, h});
+    }
+    c.maxIter = irange(1, 6);
+    return c;
+}
+
 // Two nodes with facing sides on exactly the same line slide past each other while an edge runs between them
 // (both bend round corners on that line within one pass); all eight lattice symmetries, extra bystanders.
 Case gen_slide() {
@@ -234,6 +278,9 @@ int main(int argc, char **argv) {
         [](Reader &r) { return eval_c13(Case::parse(r)); }, nullptr});
     props.push_back({"C13.locked", 1.0,
         [] { Case c = gen_locked(); RC_PRE(c.nodes.size() >= 2 && !c.edges.empty()); return record("C13.locked", c.str(), [&] { return eval_c13(c); }); },
+        [](Reader &r) { return eval_c13(Case::parse(r)); }, nullptr});
+    props.push_back({"C13.resize", 0.5,
+        [] { Case c = gen_resize(); RC_PRE(c.nodes.size() >= 2 && !c.edges.empty() && !c.resizes.empty()); return record("C13.resize", c.str(), [&] { return eval_c13(c); }); },
         [](Reader &r) { return eval_c13(Case::parse(r)); }, nullptr});
     props.push_back({"C13.slide", 1.0,
         [] { Case c = gen_slide(); RC_PRE(c.nodes.size() >= 2 && !c.edges.empty()); return record("C13.slide", c.str(), [&] { return eval_c13(c); }); },
